@@ -263,6 +263,53 @@ def run(ctx):
             for where, oo in load(FlowCal, path, True):
                 judge(ctx, cid, where, oo, intact_arr, intact_text, False, ('truncate-big', frac), dict(kind=kind, N=N))
             ctx.case_done(class_key=('truncate-big', kind), nontrivial=True, distinct_key=core.digest(cid, frac))
+    # ---- a keyword the reader relies on is absent, and the file is cut short at every byte -----------------------------------
+    # (whatever a reader does about the absent keyword - refuse, or fall back on the bytes present - a file cut short returns
+    # exactly what was written in full, or raises)
+    KW = ['$TOT', '$TOT', '$TOT', '$PAR', '$DATATYPE', '$BYTEORD', '$MODE', '$NEXTDATA', '$P1B', '$P1R', '$P1N', '$P1E', '$P2B']
+    for cid, rng in ctx.cases([('absent', i) for i in range(13 if ctx.tier == 'quick' else 390)]):
+        kw = KW[cid[1] % len(KW)]
+        cell = cells[int(rng.integers(len(cells)))]
+        spec = layouts.make_spec(rng, cell, max_n=6, max_d=4, n=int(rng.integers(2, 7)))
+        spec.pop('key_order', None)
+        spec.pop('rng', None)
+        if rng.random() < 0.5:
+            spec['pad_tail'] = 8
+        raw, lay = fcsgen.build(spec)
+        with open(path, 'wb') as fh:
+            fh.write(raw)
+        o = core.attempt(FlowCal.io.FCSFile, path)
+        if o.raised:
+            continue
+        intact_arr, intact_text = np.array(o.value.data), dict(o.value.text)
+        if kw not in intact_text:
+            continue
+        sp = dict(spec)
+        sp['data_bytes'] = fcsgen.pack_data(spec['events'], spec['widths'], spec['datatype'], spec['byteord'])
+        sp['override'] = dict(spec.get('override') or {}, **{kw: None})
+        try:
+            raw2, lay2 = fcsgen.build(sp)
+        except AssertionError:
+            continue
+        want_text = {k: v for k, v in intact_text.items() if k != kw}
+        # (offsets recorded in TEXT move with the shorter TEXT segment)
+        cls_, wt_ = written_text(raw2)
+        if cls_ != 'ok':
+            continue
+        want_text = wt_
+        desc = dict(layouts.describe(spec), absent=kw)
+        with open(path, 'wb') as fh:
+            fh.write(raw2)
+        n_loaded = 0
+        for cut in range(len(raw2), -1, -1):
+            os.truncate(path, cut)
+            for where, oo in load(FlowCal, path, cut % 5 == 0):
+                r = judge(ctx, cid, where, oo, intact_arr, want_text, raw2[:cut] if cut <= lay2['text_end'] else want_text,
+                          ('absent-keyword+truncate', kw, cut), desc)
+                n_loaded += r != 'raised'
+            ctx.counters['chk:absent-keyword'] += 1
+        ctx.note('absent %s: loads among all cuts' % kw, n_loaded)
+        ctx.case_done(class_key=('absent', kw, spec['datatype']), nontrivial=True, distinct_key=core.digest(raw2))
     # ---- a second data set appended to the file ($NEXTDATA) ----------------------------------------------------------
     # Whatever the position of an open handle, and wherever the file is cut inside the SECOND data set, a load returns one
     # data set's events together with that same data set's keywords (the first one for this reader), or raises: never the
